@@ -166,6 +166,9 @@ CHECKS = {
         "assumptions": ["atomicity of the three methods under state.mu"],
         "exhaustive_if_units": ["statemachine"],
         "units": [
+            {"name": "sched", "pkg": "./internal/scheduler", "run": "^TestVerifC17Sched",
+             "quick": {"checks": 4000, "shards": 2, "timeout": 900},
+             "thorough": {"checks": 100000, "shards": 8, "timeout": 3400}},
             {"name": "transfer", "pkg": T, "run": "^TestVerifC17",
              "quick": {"checks": 3000, "shards": 4, "timeout": 900},
              "thorough": {"checks": 40000, "shards": 16, "timeout": 3400}},
